@@ -194,7 +194,8 @@ func build(harness string, race bool) string {
 		}
 	}
 	out := binPath(harness, race)
-	args := []string{"test", "-c", "-vet=off", "-overlay", ov, "-o", out}
+	// -checklinkname=0: crdtsim reaches ipfscluster.newPubSub through go:linkname
+	args := []string{"test", "-c", "-vet=off", "-ldflags=-checklinkname=0", "-overlay", ov, "-o", out}
 	if mf := altModfile(); mf != "" {
 		args = append(args, "-modfile="+mf)
 	}
